@@ -7,6 +7,7 @@ THEOREMS = [
     "XcmModel.C02.C02_rc_range", "XcmModel.C02.C02_capacity", "XcmModel.C02.inv_run",
     "XcmModel.C02.C02_failed_call_no_trace", "XcmModel.C02.C02_btcp_prefix",
     "XcmModel.Api.bsend_acc", "XcmModel.Api.finishAfter_spec", "XcmModel.C02.C02_bsend_accounting",
+    "XcmModel.C02btls.C02_btls_rc_range", "XcmModel.C02btls.C02_btls_failed_call_no_trace", "XcmModel.C02btls.C02_btls_capacity", "XcmModel.C02btls.C02_btls_counters",
 ]
 
 
@@ -54,10 +55,17 @@ def run(ctx):
         m, il = ctx.differential("unit_api", "api", aexe, aops, label="api")
         amon.run(aops, il)
     ctx.rule += "; unit_api: the real xcm.c wrappers (blocking and non-blocking xcm_send/xcm_receive/xcm_finish/xcm_set_blocking) over a scripted transport and poll(), traces of transport calls and waits compared with the Lean Api model; monitor: offered ranges stay inside the caller's buffer, reported byte count = bytes the transport accepted, no -1/EINTR after acceptance"
+    # the TLS connection machine (xcm_tp_btls.c) against the Lean Btls model, with its monitors
+    from gen import btls as _btls
+    _btls.run_part(ctx, 60 if ctx.tier == "quick" else 3000, exhaustive=True)
+    ctx.rule += (" unit_btls: the real xcm_tp_btls.c with scripted OpenSSL answers vs the Lean Btls model: every OpenSSL event x first observer x state x verdict, conn_update for every reachable (state, ssl_condition, ssl_wants) x condition x SSL_has_pending, seeded random histories; stickiness/discoverer/rc-range/gating monitors.")
 
 
 def replay(path):
     r = json.load(open(path))
+    if r.get("harness") == "unit_btls":
+        from gen import btls as _btls
+        return _btls.replay(r)
     exe = btcp.build()
     text = "\n".join(r["ops"]) + "\n"
     common.lake_build(["driver"])
